@@ -503,6 +503,43 @@ Proof.
     left. reflexivity.
 Qed.
 
+Lemma strip_suffix_some name x : strip_suffix NPY_SUFFIX name = Some x -> name = x ++ NPY_SUFFIX.
+Proof.
+  unfold strip_suffix.
+  destruct ((List.length NPY_SUFFIX <=? List.length name)%nat &&
+            list_eqb (skipn (List.length name - List.length NPY_SUFFIX) name) NPY_SUFFIX) eqn:E2; [|discriminate].
+  intros E. injection E as E3. apply andb_true_iff in E2. destruct E2 as [_ E2].
+  apply list_eqb_eq in E2. change (List.length NPY_SUFFIX) with 4%nat in *.
+  rewrite <- (firstn_skipn (List.length name - 4) name) at 1.
+  rewrite E3, E2. reflexivity.
+Qed.
+
+Lemma spec_key_suffixed x : spec_key FNpz (x ++ NPY_SUFFIX) = x.
+Proof.
+  unfold spec_key. rewrite rev_app_distr. change (rev NPY_SUFFIX) with [121; 112; 110; 46]. cbn [app].
+  change ((121 =? 121) && (112 =? 112) && (110 =? 110) && (46 =? 46)) with true. cbv iota. apply rev_involutive.
+Qed.
+
+Theorem npz_key_is_spec name member :
+  npz_file_name name = Some member -> npz_read_key member = Some (spec_key FNpz name).
+Proof.
+  unfold npz_file_name, npz_read_key.
+  destruct (strip_suffix NPY_SUFFIX name) as [x|] eqn:E.
+  - apply strip_suffix_some in E. subst name.
+    destruct x as [|c x]; [discriminate|]. intros H; inversion H; subst.
+    rewrite spec_key_suffixed. exact (strip_suffix_app (c :: x)).
+  - destruct name as [|c x]; [discriminate|]. intros H; inversion H; subst.
+    pose proof (strip_suffix_app (c :: x)) as Hs. cbn [app] in Hs |- *. rewrite Hs. f_equal.
+    unfold spec_key.
+    destruct (rev (c :: x)) as [|a1 [|a2 [|a3 [|a4 r]]]] eqn:Er; try reflexivity.
+    destruct ((a1 =? 121) && (a2 =? 112) && (a3 =? 110) && (a4 =? 46)) eqn:Eb; [|reflexivity].
+    repeat (apply andb_true_iff in Eb; destruct Eb as [Eb ?]).
+    apply N.eqb_eq in Eb, H0, H1, H2. subst.
+    exfalso. assert (Hn : c :: x = rev r ++ NPY_SUFFIX).
+    { rewrite <- (rev_involutive (c :: x)), Er. cbn [rev]. rewrite <- !app_assoc. reflexivity. }
+    rewrite Hn, strip_suffix_app in E. discriminate.
+Qed.
+
 Theorem st_dtype_roundtrip d : st_dtype_of_name (st_name d) = Some d.
 Proof. destruct d; reflexivity. Qed.
 
@@ -539,29 +576,64 @@ Proof.
       intros H; apply N.eqb_eq in H; subst; reflexivity.
 Qed.
 
+Definition multi_ok (f : fmt) (entries : list (list N * (dtype * (list N * list N))))
+           (wrote : bool) (rb : list (list N * outcome)) (ra : list outcome) : Prop :=
+  wrote = true /\
+  List.length rb = List.length entries /\
+  (forall e, In e entries ->
+     exists r, In r rb /\ fst r = spec_key f (fst e) /\ snd r = entry_outcome e) /\
+  List.length ra = List.length entries /\
+  (forall e o, In (e, o) (combine entries ra) -> o = entry_outcome e).
+
 Lemma prop_ok_sound c : prop_ok c = true ->
   match c with
   | CRead _ _ impl => total impl
-  | CRound _ f d shape elems _ aux_in _ impl =>
-      (f = FNpz /\ (aux_in = [] \/ aux_in = NPY_SUFFIX) /\ exists e, impl = RErr e) \/
-      impl = ROk d shape elems
+  | CRound _ f d shape elems _ aux_in aux_out impl =>
+      match f with
+      | FNpz => (spec_key FNpz aux_in = [] /\ exists e, impl = RErr e) \/
+                (impl = ROk d shape elems /\ aux_out = Some (spec_key FNpz aux_in))
+      | _ => impl = ROk d shape elems
+      end
   | CBig _ d shape _ _ impl => exists e, impl = ROk d shape e
   | CReadOther _ _ cls => cls < 2
+  | CMulti _ f entries wrote rb ra =>
+      let keys := map (fun e => spec_key f (fst e)) entries in
+      if existsb (fun k => list_eqb k []) keys || negb (distinctb keys)
+      then f = FNpz -> wrote = false
+      else multi_ok f entries wrote rb ra
   end.
 Proof.
-  destruct c as [dbg bytes impl|dbg f d shape elems written aux_in aux_out impl|dbg d shape hdr wl impl|dbg f cls];
+  destruct c as [dbg bytes impl|dbg f d shape elems written aux_in aux_out impl|dbg d shape hdr wl impl|dbg f cls
+                 |dbg f entries wrote rb ra];
     cbn [prop_ok].
   - destruct impl; try discriminate; intros; exact I.
   - destruct f.
-    + intros H. right. apply outcome_eqb_eq in H. exact H.
-    + destruct (list_eqb aux_in [] || list_eqb aux_in NPY_SUFFIX) eqn:E.
-      * intros H. left. split; [reflexivity|]. split.
-        -- apply orb_true_iff in E. destruct E as [E|E]; apply list_eqb_eq in E; auto.
-        -- destruct impl; try discriminate. eauto.
-      * intros H. right. apply outcome_eqb_eq in H. exact H.
-    + intros H. right. apply outcome_eqb_eq in H. exact H.
+    + intros H. apply outcome_eqb_eq in H. exact H.
+    + destruct (list_eqb (spec_key FNpz aux_in) []) eqn:E.
+      * intros H. left. split; [apply list_eqb_eq; exact E|]. destruct impl; try discriminate. eauto.
+      * intros H. right. apply andb_true_iff in H. destruct H as [H1 H2].
+        apply outcome_eqb_eq in H1. split; [exact H1|].
+        destruct aux_out as [k|]; cbn [opt_list_eqb] in H2; [|discriminate].
+        apply list_eqb_eq in H2. subst. reflexivity.
+    + intros H. apply outcome_eqb_eq in H. exact H.
   - destruct impl as [d' s' e'| | | |]; try discriminate.
     intros H. apply andb_true_iff in H. destruct H as [Hd Hs]. apply list_eqb_eq in Hs. subst.
     destruct d, d'; try discriminate; eauto.
   - intros H. apply N.ltb_lt. exact H.
+  - cbv zeta.
+    destruct (existsb (fun k => list_eqb k []) (map (fun e => spec_key f (fst e)) entries)
+              || negb (distinctb (map (fun e => spec_key f (fst e)) entries))).
+    + destruct f; try discriminate.
+      intros H _. apply negb_true_iff in H. exact H.
+    + intros H. repeat (apply andb_true_iff in H; destruct H as [H ?]).
+      unfold multi_ok. split; [exact H|].
+      split; [apply Nat.eqb_eq; assumption|].
+      split.
+      { intros e Hin. rewrite forallb_forall in H2. specialize (H2 e Hin).
+        apply existsb_exists in H2. destruct H2 as (r & Hr & Hm).
+        apply andb_true_iff in Hm. destruct Hm as [Hk Ho].
+        exists r. split; [exact Hr|]. split; [apply list_eqb_eq; exact Hk|apply outcome_eqb_eq; exact Ho]. }
+      split; [apply Nat.eqb_eq; assumption|].
+      intros e o Hin. rewrite forallb_forall in H0. specialize (H0 (e, o) Hin).
+      apply outcome_eqb_eq in H0. exact H0.
 Qed.
